@@ -154,6 +154,48 @@ def case_big_maint(rng, kind, cfg_len=8192):
     return "%s S0=t.tf.a.s,f.v.i ; %s" % (kind, h.text())
 
 
+def case_split_tail(rng, kind, cfg_len=8192):
+    """>= 3 blocks of ONE series in ONE merge, the first two exceeding maxBlockLength (split path: the tail stays
+    pending while the next block of the same series is loaded), string tag values all distinct (> 256 per block:
+    plain, not dictionary, encoding) so that every value is checked after the merge. The third block's column is
+    sized like the first two together: should the merger keep references into a recycled decode buffer, the third
+    block lands exactly on them."""
+    sid = rng.choice([1, 7, 2 ** 64 - 1])
+    n1 = rng.choice([100, 60, 1000])
+    n2 = cfg_len - n1 + rng.choice([1, 58, 400])
+    n3 = rng.choice([8000, 7000, 8000, 300])
+    n4 = rng.choice([0, 0, 700])
+    t = [rng.choice([1, -20000])]
+
+    def part(p, n, length=None):
+        rows = []
+        for i in range(n):
+            v = "p%d-ts%d-%s" % (p, t[0], "x" * (i % 7))
+            if length is not None:
+                v = (v + "z" * length)[:max(length, len("p%d-ts%d-" % (p, t[0])))]
+            rows.append(Row(sid, t[0], 1, ["s" + v.encode().hex(), "i%d" % (p * 100000 + i)]))
+            t[0] += 1
+        return rows
+    p1, p2 = part(1, n1), part(2, n2)
+    total = sum(len(r.vals[0]) // 2 for r in p1 + p2)
+    target = int(total * rng.choice([1.0, 1.01, 1.03, 0.998])) // n3 + 1
+    parts = [p1, p2, part(3, n3, length=target)] + ([part(4, n4)] if n4 else [])
+    lo, hi = parts[0][0].ts - 1, t[0] + 1
+    qs = [(0, [sid], lo, hi, "ta"), (0, [sid], p2[-1].ts - 70, p2[-1].ts + 70, rng.choice(["td", "s"]))]
+    h = Hist(rng)
+    for rows in parts:
+        h.batch(0, rows)
+    issue(h, qs)
+    if rng.random() < 0.7:
+        h.flush(list(h.mem))
+        h.merge(list(h.file))
+    else:
+        h.merge(list(h.mem))
+    issue(h, qs)
+    h.dump()
+    return "%s S0=t.tf.a.s,f.v.i ; %s" % (kind, h.text())
+
+
 def case_huge(rng, kind):
     """uncompressed block size limit (2 MiB): few rows with large values"""
     sid = 3
@@ -258,14 +300,14 @@ class C03(base.StoreSpec):
             "time windows disjoint or overlapping; after every batch and after every flush (any subset of memory parts) / merge "
             "(fan-in 1-8 over memory or file parts) all 2-3 registered queries (projections incl. the union and the conflicting-type "
             "view, all three orders) are re-issued; `big`: series of maxBlockLength-1..+2 rows with touching/overlapping/interleaved "
-            "parts; `huge`: blocks crossing the 2 MiB uncompressed limit; `mtie`: equal (series, ts, version) with different values; "
+            "parts; `huge`: blocks crossing the 2 MiB uncompressed limit; `tail`: 3-4 parts of one series in one merge, the first two exceeding maxBlockLength, all string values distinct (plain encoding); `mtie`: equal (series, ts, version) with different values; "
             "`fset`/`ftype`: the two known classes F10/F53; non-trivial = case with at least one maintenance step between two answers")
 
     def cases(self, rng, n):
         out = []
         nbig = 4 if n < 5000 else 40
         nhuge = 2 if n < 5000 else 10
-        for _ in range(n - nbig - nhuge - 4):
+        for _ in range(n - 2 * nbig - 2 - nhuge - 4):
             r = rng.random()
             if r < 0.8:
                 out.append(case_maint(rng, "maint"))
@@ -277,6 +319,8 @@ class C03(base.StoreSpec):
             out.append(case_big_maint(rng, "big"))
         for _ in range(nhuge):
             out.append(case_huge(rng, "huge"))
+        for _ in range(nbig + 2):
+            out.append(case_split_tail(rng, "tail"))
         out += [case_fset(rng), case_fset(rng), case_ftype(rng), case_ftype(rng)]
         return out
 
